@@ -36,7 +36,25 @@ Record c08_case := {
 
 (** * Model vs implementation *)
 
-Definition sample_eqb (a b : var * value) : bool := var_eqb (fst a) (fst b) && value_eqb (snd a) (snd b).
+(** Numbers: equality as rationals, except where float64 cannot be exact for
+    a decimal input: a difference of at most two denormal steps (2^-1073; no
+    two different float64 are that close - 4.9e-324 reads as 2^-1074, 1e-400
+    as 0, and such an operand may have gone into a delta) is no difference,
+    and magnitudes of 2^53 and more are compared within 2^-48 relative (1e300
+    is not a float64; differences of huge numbers are rounded). *)
+Definition two_pow (n : Z) : Q :=
+  if (0 <=? n)%Z then inject_Z (2 ^ n) else Qmake 1 (Z.to_pos (2 ^ (- n))).
+Definition num_agree (x y : Q) : bool :=
+  Qeq_bool x y
+  || Qle_bool (Qabs (x - y)) (two_pow (-1073))
+  || (let m := Qabs x in Qle_bool (two_pow 53) m && Qle_bool (Qabs (x - y) * two_pow 48) m).
+
+Definition sample_value_eqb (a b : value) : bool :=
+  match a, b with
+  | VNum x, VNum y => num_agree x y
+  | _, _ => value_eqb a b
+  end.
+Definition sample_eqb (a b : var * value) : bool := var_eqb (fst a) (fst b) && sample_value_eqb (snd a) (snd b).
 Definition sigev_eqb (a b : Z * list (var * value)) : bool :=
   Z.eqb (fst a) (fst b) && list_eqb sample_eqb (snd a) (snd b).
 
@@ -57,7 +75,7 @@ Definition detect_model_bad (k : c08_case) : bool :=
 (** parse_decimal vs strconv.ParseFloat. *)
 Definition num_agrees (e : string * option Q) : bool :=
   match parse_decimal (fst e), snd e with
-  | Some a, Some b => Qeq_bool a b
+  | Some a, Some b => num_agree a b
   | None, None => true
   | _, _ => false
   end.
@@ -79,7 +97,7 @@ Definition ns_of_secs (q : Q) : Z := (Qnum q * 1000000000 / Zpos (Qden q))%Z.
 Definition cell_eqb (a b : cell) : bool :=
   match a, b with
   | CText x, CText y => String.eqb x y
-  | CNum x, CNum y => Qeq_bool x y
+  | CNum x, CNum y => num_agree x y
   | _, _ => false
   end.
 
